@@ -39,6 +39,9 @@ pub enum Quote {
 pub struct NatSpec {
     pub new_src: Ipv4Addr,
     pub new_port: Option<u16>,
+    /// A sloppy device that does not translate the source address inside quoted datagrams back
+    /// on the return path (RFC 5508 asks for it, not every device does it).
+    pub quote_keeps_new_src: bool,
 }
 
 #[derive(Debug, Clone)]
@@ -746,6 +749,7 @@ impl WorldInner {
         let mut transit = wp.bytes.clone();
         let mut quoted_udp_csum = wp.udp_csum;
         let mut tos = wp.tos;
+        let mut quoted_src: Option<Ipv4Addr> = None;
         for h in topo.hops.iter().take(usize::from(at).min(topo.hops.len())) {
             if let Some(t) = h.tos_rewrite {
                 tos = t;
@@ -765,6 +769,9 @@ impl WorldInner {
                                 c2 = wire::csum_update(c2, udp.sport, p);
                             }
                             quoted_udp_csum = Some(c2);
+                            if nat.quote_keeps_new_src {
+                                quoted_src = Some(nat.new_src);
+                            }
                         }
                     }
                 }
@@ -785,6 +792,9 @@ impl WorldInner {
         } else if let Ok(mut ip) = Ip4::parse(&transit) {
             ip.tos = tos;
             ip.ttl = spec.q_ttl;
+            if let Some(s) = quoted_src {
+                ip.src = s;
+            }
             if ip.proto == PROTO_UDP && ip.payload.len() >= 8 {
                 if let Some(c) = quoted_udp_csum {
                     ip.payload[6..8].copy_from_slice(&c.to_be_bytes());
